@@ -26,6 +26,10 @@ type Case struct {
 	SrcOps []gen.Op       `json:"srcops"`
 	Dst    gen.WriterOpts `json:"dst"`
 	Kind   string         `json:"kind"` // file | buffer | multi | converted | foreign
+	// Lead > 0: that many rows (a copy of the first expected rows) are handed to the destination writer before
+	// WriteRowGroup and are still buffered when it is called; LeadVia "rows" = WriteRows, "columns" = ColumnWriters().WriteRowValues
+	Lead    int    `json:"lead,omitempty"`
+	LeadVia string `json:"leadvia,omitempty"`
 }
 
 var kinds = []string{"file", "file", "file", "buffer", "multi", "converted", "foreign"}
@@ -70,6 +74,10 @@ func genCase(t *rapid.T) Case {
 		}
 	}
 	c.Kind = kinds[rapid.IntRange(0, len(kinds)-1).Draw(t, "kind")]
+	if rapid.IntRange(0, 3).Draw(t, "lead") == 0 {
+		c.Lead = []int{1, 2, 10, 70}[rapid.IntRange(0, 3).Draw(t, "leadn")]
+		c.LeadVia = []string{"rows", "columns"}[rapid.IntRange(0, 1).Draw(t, "leadvia")]
+	}
 	return c
 }
 
@@ -217,10 +225,50 @@ func runCase(c Case, o *kit.Obs) *kit.Failure {
 		o.Rejected()
 		return nil
 	}
+	// rows pending in the destination writer when WriteRowGroup is called
+	var lead []ref.V
+	if c.Lead > 0 && len(expected) > 0 {
+		k := min(c.Lead, len(expected))
+		if c.LeadVia == "columns" && c.Dst.MaxRows > 0 {
+			// the caller of the column writers decides when a row group ends: stay within the limit
+			k = min(k, int(c.Dst.MaxRows))
+		}
+		lead = append(lead, expected[:k]...)
+		feat = fmt.Sprintf("{src=%s,pending=%s}", c.Kind, c.LeadVia)
+		o.Class("pending-rows-via-" + c.LeadVia)
+	}
+	writeLead := func(w *parquet.Writer) error {
+		if len(lead) == 0 {
+			return nil
+		}
+		if c.LeadVia != "columns" {
+			_, err := w.WriteRows(pq.Rows(troot, cols, lead))
+			return err
+		}
+		split, err := ref.SplitRows(ref.ShredRows(troot, lead))
+		if err != nil {
+			return err
+		}
+		for ci, cw := range w.ColumnWriters() {
+			var vals []parquet.Value
+			for _, r := range split {
+				for _, lv := range r[ci] {
+					vals = append(vals, pq.ToValue(cols[ci].Leaf, lv, ci))
+				}
+			}
+			if _, err := cw.WriteRowValues(vals); err != nil {
+				return err
+			}
+		}
+		return nil
+	}
 	// file A: WriteRowGroup
 	copy0, re0 := parquet.VerifCopyPathCount(), parquet.VerifReencodePathCount()
 	var a bytes.Buffer
 	wa := parquet.NewWriter(&a, dstOpts...)
+	if err := writeLead(wa); err != nil {
+		return kit.Failf("c11/write-pending-error"+feat, "%v", err)
+	}
 	for i, rg := range srcs {
 		if _, err := wa.WriteRowGroup(rg); err != nil {
 			return kit.Failf("c11/write-row-group-error"+feat, "WriteRowGroup(source %d): %v", i, err)
@@ -233,6 +281,9 @@ func runCase(c Case, o *kit.Obs) *kit.Failure {
 	// the same writer, Reset, writes the same sources again: same bytes expected
 	var a2 bytes.Buffer
 	wa.Reset(&a2)
+	if err := writeLead(wa); err != nil {
+		return kit.Failf("c11/write-pending-error"+feat, "after Reset: %v", err)
+	}
 	for i, rg := range srcs {
 		if _, err := wa.WriteRowGroup(rg); err != nil {
 			return kit.Failf("c11/write-row-group-error"+feat, "after Reset: WriteRowGroup(source %d): %v", i, err)
@@ -245,6 +296,7 @@ func runCase(c Case, o *kit.Obs) *kit.Failure {
 	var b bytes.Buffer
 	restore := parquet.VerifDisableFastPaths()
 	wb := parquet.NewWriter(&b, dstOpts...)
+	expected = append(append([]ref.V{}, lead...), expected...)
 	_, errB := wb.WriteRows(pq.Rows(troot, cols, expected))
 	if errB == nil {
 		errB = wb.Close()
